@@ -484,7 +484,10 @@ class C20(Scenario):
         if paced:
             w.pop("drain")
         # no replace-renames: generate, then drop renames onto existing entries
-        ops_all = fm.gen_ops(rng, m, rng.randrange(1, 10), weights=w, paced=True, drain_each=paced, allow=self.ALLOW)
+        # the foreign emitters install no per-directory watches, so the directory pacing condition is not needed for
+        # "nothing real goes unreported": 40% of the racing runs ignore it (only the missing-entries oracle applies)
+        unpaced = (not paced) and cfg.random() < 0.4
+        ops_all = fm.gen_ops(rng, m, rng.randrange(1, 10), weights=w, paced=not unpaced, drain_each=paced, allow=self.ALLOW)
         mm = fm.Model()
         for op in pre:
             fm.apply(mm, op)
@@ -499,7 +502,7 @@ class C20(Scenario):
         osk = ["windows", "macos"][idx % 2]
         if rng.random() < 0.12:
             ops += [["drain"], ["rmroot"]]
-        case = {"os": osk, "pre": pre, "ops": ops, "paced": paced,
+        case = {"os": osk, "pre": pre, "ops": ops, "paced": paced, "unpaced": unpaced,
                 "watch": {"recursive": cfg.random() < 0.75, "root_kind": "str", "spelling": "abs"},
                 "cuts": [cfg.choice([0, 1, 2, 3]) for _ in range(3)], "parent_modified": cfg.random() < 0.5, "flush_each": paced or cfg.random() < 0.5,
                 "sched": draw_sched(cfg, line=False, pct_k=800, step_cap=300_000, horizon=3600, pct_share=0.2)}
@@ -571,9 +574,15 @@ class C20(Scenario):
             got = {p: k for p, k in got.items() if fm.parent(p) == "root"}
         # both emitters learn the File/Dir flavour from the file system at processing time (os.path.isdir / stale flags):
         # when operations race ahead of the emitter the flavour may be stale, so kinds are compared on paced runs only
-        if set(got) == set(real) and (not run.case["paced"] or all(got[p] == real[p] for p in got)):
-            return None
-        return {"phantom": {p: k for p, k in got.items() if real.get(p) != k}, "missing": {p: k for p, k in real.items() if got.get(p) != k}}
+        if run.case["paced"]:
+            if got == real:
+                return None
+            return {"phantom": {p: k for p, k in got.items() if real.get(p) != k}, "missing": {p: k for p, k in real.items() if got.get(p) != k}}
+        # racing histories: the emitters look at the file system when they *process* a record (isdir, walk of a rename
+        # destination), so a name re-used in the meantime yields stale flavours and stale synthetic sub-events; only
+        # "every entry that really exists has been reported" is schedule-independent
+        missing = {p: k for p, k in real.items() if p not in got}
+        return {"phantom": {}, "missing": missing} if missing else None
 
     def judge(self, run, res, case):
         v = []
